@@ -151,14 +151,60 @@ def _map_dtype(dt):
     return d
 
 
-def _objify(a):
+class SymArray(_np.ndarray):
+    """object ndarray whose .astype(float/int) keeps symbolic scalars (numpy's own astype would call float() on them)"""
+
+    def astype(self, dtype, *a, **k):
+        if self.dtype != object:
+            return _np.ndarray.astype(self.view(_np.ndarray), dtype, *a, **k)
+        dt = _map_dtype(dtype)
+        if dt is object:
+            out = _np.empty(self.shape, dtype=object).view(SymArray)
+            fo, fi = out.reshape(-1), self.reshape(-1)
+            for i in range(fi.size):
+                v = fi[i]
+                fo[i] = v if is_sym(v) else (builtins.float(v) if isinstance(v, (numbers.Real, _np.floating, _np.integer, _np.bool_)) else v)
+            return out
+        if isinstance(dt, _np.dtype) and dt.kind in 'iu':
+            out = _np.empty(self.shape, dtype=object).view(SymArray)
+            fo, fi = out.reshape(-1), self.reshape(-1)
+            anysym = False
+            for i in range(fi.size):
+                v = fi[i]
+                if is_sym(v):
+                    anysym = True
+                    fo[i] = v.__int__() if isinstance(v, SReal) else sint(v)
+                else:
+                    fo[i] = builtins.int(v)
+            if not anysym:
+                return _np.array(out.tolist(), dtype=dt).reshape(self.shape)
+            return out
+        if isinstance(dt, _np.dtype) and dt.kind == 'b':
+            return _np.array([builtins.bool(v) for v in self.reshape(-1)], dtype=bool).reshape(self.shape)
+        return _np.ndarray.astype(self.view(_np.ndarray), dtype, *a, **k)
+
+
+def _symview(a):
+    if isinstance(a, _np.ndarray) and a.dtype == object and not isinstance(a, SymArray):
+        return a.view(SymArray)
+    return a
+
+
+def _objify(a, none_as_nan=False):
     """float ndarray -> object ndarray of python floats (so a symbolic scalar can be stored)"""
     if isinstance(a, _np.ndarray) and a.dtype.kind in 'fc':
         o = _np.empty(a.size, dtype=object)
         flat = a.ravel().tolist()
         for i, v in enumerate(flat):
             o[i] = v
-        return o.reshape(a.shape)
+        return o.reshape(a.shape).view(SymArray)
+    if isinstance(a, _np.ndarray) and a.dtype == object:
+        if none_as_nan:
+            flat = a.reshape(-1)
+            for i in range(flat.size):
+                if flat[i] is None:
+                    flat[i] = builtins.float('nan')
+        return _symview(a)
     return a
 
 
@@ -192,15 +238,15 @@ symnp.float = sfloat  # not in numpy 2, harmless
 def _array(a, dtype=None, *args, **kw):
     dt = _map_dtype(dtype)
     r = _np.array(a, dtype=dt, *args, **kw)
-    return _objify(r)
+    return _objify(r, none_as_nan=(dt is object and dtype is not None and dtype is not object))
 
 
 def _asarray(a, dtype=None, *args, **kw):
     dt = _map_dtype(dtype)
     if isinstance(a, _np.ndarray) and a.dtype == object and (dt is None or dt is object):
-        return a
+        return _symview(a)
     r = _np.asarray(a, dtype=dt, *args, **kw)
-    return _objify(r)
+    return _objify(r, none_as_nan=(dt is object and dtype is not None and dtype is not object))
 
 
 def _asanyarray(a, dtype=None, *args, **kw):
@@ -211,6 +257,20 @@ symnp.array = _array
 symnp.asarray = _asarray
 symnp.asanyarray = _asanyarray
 symnp.ascontiguousarray = _asarray
+
+
+def _wrap_symview(name):
+    f = getattr(_np, name)
+
+    def g(*a, **k):
+        return _symview(f(*a, **k))
+    g.__name__ = name
+    return g
+
+
+for _n in ('choose', 'where', 'take', 'clip', 'sort', 'concatenate', 'hstack', 'vstack', 'dot', 'outer', 'atleast_1d', 'ravel', 'reshape',
+           'squeeze', 'cumsum', 'diff', 'copy', 'transpose', 'flip', 'roll', 'append', 'insert', 'delete', 'tile', 'repeat', 'select'):
+    setattr(symnp, _n, _wrap_symview(_n))
 
 
 def _mk_ctor(name):
